@@ -1,11 +1,11 @@
 SPECIFICATION Spec
 CONSTANTS Contracts <- McContracts
  Sender = "U"
- Creators = {}
+ Creators = {"U", "A", "B"}
  Slots <- McSlots
- InitBal <- McInitBal
+ InitBal <- McInitBalC
  InitStor <- McInitStor
- Kinds <- McKinds
+ Kinds <- McKindsC
  Vals = {1}
  SendVals = {0, 1}
  SuicideTo = {"U"}
